@@ -106,6 +106,21 @@ class Sandbox:
         return [self.apath("target"), self.apath("tmp"), self.apath("parent"), self.apath("tmp2")]
 
 
+def sweep_stale(max_age_s: float = 7200.0):
+    """Remove sandboxes left behind by an aborted run (older than two hours)."""
+    import time
+    try:
+        for n in os.listdir(BASE):
+            p = os.path.join(BASE, n)
+            try:
+                if n.startswith("sb") and time.time() - os.lstat(p).st_mtime > max_age_s:
+                    shutil.rmtree(p, ignore_errors=True)
+            except OSError:
+                pass
+    except OSError:
+        pass
+
+
 def tmp_files(parent: str):
     try:
         return sorted(n for n in os.listdir(parent) if n.endswith(".tmp"))
